@@ -3,8 +3,7 @@ Model of the curve constructors of src/ecm.rs / src/ecm128.rs (C15):
 `Suyama11::new`, `Suyama11::element`, `Suyama11::params`, `Suyama11::params_point`,
 `UnexpectedLargeFactor::new`, `zn_divide`, `Curve::twisted_from_point`, `Curve::fraction_modn`,
 `Curve::from_point`, the curve selection of `ecm::ecm` (`do_curve` up to the call of `ecm_curve`), the
-seed generator of `ecm::ecm`, the curve construction of `ecm128::ecm`, `ecm128::Curve::from`, and the
-point arithmetic of stage 2 of `ecm_curve` (both files) over abstract point operations.
+seed generator of `ecm::ecm`, the curve construction of `ecm128::ecm`, `ecm128::Curve::from`.
 
 The straight-line formulas are NOT copied here: they are the terms translated from the source on every
 run (Gen/Curves.lean: `suyamaDouble`, `suyamaAddG`, `suyamaParams`, `suyamaParamsPoint`,
@@ -244,80 +243,5 @@ def select128 (ctx : Ctx R) (a b gx gy : R) (seed : Nat) : Sel128 R :=
 exactly two words), then the generator is taken over word by word (the same residues). -/
 def curve128From (c : CurveData R) (words : Nat) : Option (Pt R) :=
   if c.twisted && words == 2 then some c.g else none
-
-/-! ### point arithmetic of stage 2 (`ecm::ecm_curve`, `ecm128::ecm_curve`)
-
-Over abstract point operations, as the chain interpreters of Model/Chain.lean: `E` = extended points,
-`P` = projective points. Index structure (which `b`, which multiples of `d1`): C16. -/
-
-section Stage2
-variable {P E : Type}
-
-/-- the baby steps `b` of both routines: `1 ≤ b < d1/2` coprime to `d1` -/
-def babyIndices (d1 : Nat) : List Nat := (List.range (d1 / 2)).filter fun b => 1 ≤ b ∧ Nat.gcd b d1 = 1
-
-/-- `while gaps.len() < gap / 2 { gaps.push(addext(gaps[0], gaps[len - 1])) }` (fuel = number of pushes) -/
-def extendGaps (addext : E → E → E) (gaps : Array E) (want : Nat) : Option (Array E) :=
-  (List.range (want - gaps.size)).foldlM (fun (g : Array E) _ => do
-    let g0 ← g[0]?
-    let gl ← g[g.size - 1]?
-    pure (g.push (addext g0 gl))) gaps
-
-/-- the baby-step loop: state `(gaps, bg, bexp, steps)`; `gaps[gap / 2 - 1]` underflows / is out of range
-when `gap < 2` -/
-def babyLoop (addext : E → E → E) (proj : E → P) :
-    List Nat → Array E → E → Nat → Array P → Option (Array E × Array P)
-  | [], gaps, _, _, steps => some (gaps, steps)
-  | b :: bs, gaps, bg, bexp, steps => do
-    if b < bexp then none else
-    let gap := b - bexp
-    let gaps ← extendGaps addext gaps (gap / 2)
-    if gap / 2 = 0 then none else
-    let g ← gaps[gap / 2 - 1]?
-    let bg := addext bg g
-    babyLoop addext proj bs gaps bg b (steps.push (proj bg))
-
-/-- `ecm::ecm_curve`, "Compute the baby steps" .. "Compute the giant steps": returns `(steps, n_bsteps)`.
-`dbl`: `Curve::double`; `toExt`: `to_extended`; `chainmul d1`: `scalar64_chainmul(d1, ·)`. -/
-def stage2Steps (dbl : P → P) (toExt : P → E) (addext : E → E → E) (proj : E → P)
-    (chainmul : Nat → P → Option P) (d1 d2 : Nat) (g : P) : Option (Array P × Nat) := do
-  let bs := babyIndices d1
-  let g2 := dbl g
-  let g4 := dbl g2
-  let gaps : Array E := #[toExt g2, toExt g4]
-  -- assert_eq!(bs[0], 1)
-  if bs.head? ≠ some 1 then none else
-  let (_, steps) ← babyLoop addext proj bs.tail gaps (toExt g) 1 #[g]
-  let nb := steps.size
-  let dg ← chainmul d1 g
-  let dg2 := dbl dg
-  let dgext := toExt dg
-  let steps := (steps.push dg).push dg2
-  let (_, steps) := (List.range (d2 - 2)).foldl (fun (s : E × Array P) _ =>
-    let gg := addext s.1 dgext
-    (gg, s.2.push (proj gg))) (toExt dg2, steps)
-  pure (steps, nb)
-
-/-- `ecm128::ecm_curve`: the same with `dblext` for the doublings (`g2 = dblext(g)`, `g4 =
-dblext(g2.proj())`, `dg2 = dblext(dg)`) -/
-def stage2Steps128 (dblext : P → E) (toExt : P → E) (addext : E → E → E) (proj : E → P)
-    (mul : Nat → P → Option P) (d1 d2 : Nat) (g : P) : Option (Array P × Nat) := do
-  let bs := babyIndices d1
-  let g2 := dblext g
-  let g4 := dblext (proj g2)
-  let gaps : Array E := #[g2, g4]
-  if bs.head? ≠ some 1 then none else
-  let (_, steps) ← babyLoop addext proj bs.tail gaps (toExt g) 1 #[g]
-  let nb := steps.size
-  let dg ← mul d1 g
-  let dg2 := dblext dg
-  let dgext := toExt dg
-  let steps := (steps.push dg).push (proj dg2)
-  let (_, steps) := (List.range (d2 - 2)).foldl (fun (s : E × Array P) _ =>
-    let gg := addext s.1 dgext
-    (gg, s.2.push (proj gg))) (dg2, steps)
-  pure (steps, nb)
-
-end Stage2
 
 end Ymq.Suyama
